@@ -257,6 +257,14 @@ MEM_E(P_CHG, 3, MEMREC_NODUP_AT(memrec, vg_r, vg_r2))
  * A recorded block is LIVE: record k's ptr is the start of a live heap block whose size is the
  * recorded size ("each with the block's current address, its most recently requested size"). */
 #define MEM_TAB             (&malloc_rec)
+/* calloc units fix the element size to a constant (CALLOC(type, n) always passes sizeof(type)): the code
+ * computes size * count, libc's model count * size - two symbolic 64-bit products in different operand
+ * orders, whose equality no back end decides in 5 minutes */
+#ifdef MEM_CALLOC_ELEM
+# define MEM_CALLOC_SIZE_REQ(sz) ((sz) == MEM_CALLOC_ELEM)
+#else
+# define MEM_CALLOC_SIZE_REQ(sz) 1
+#endif
 #define MEM_LIVE_PRE_AT(k)  (!((k) < malloc_rec.cnt) || \
                              (malloc_rec.ptrs[(k)].size <= (size_t) VCAP && \
                               __CPROVER_is_fresh(malloc_rec.ptrs[(k)].ptr, malloc_rec.ptrs[(k)].size)))
@@ -274,7 +282,7 @@ __CPROVER_assigns()
 __CPROVER_ensures(__CPROVER_is_fresh(__CPROVER_return_value, size))
 ;
 void *spifmem_calloc(const char *filename, unsigned long line, size_t count, size_t size)
-__CPROVER_requires(MEM_LEVEL_REQ && count <= 0xffffUL && size <= 0xffffUL)
+__CPROVER_requires(MEM_LEVEL_REQ && count <= 0xffffUL && size <= 0xffffUL && MEM_CALLOC_SIZE_REQ(size))
 __CPROVER_assigns()
 __CPROVER_ensures(__CPROVER_is_fresh(__CPROVER_return_value, count * size))
 __CPROVER_ensures(!(vg_k2 < count * size) || ((char *) __CPROVER_return_value)[vg_k2] == 0)
@@ -289,8 +297,9 @@ void *spifmem_realloc(const char *var, const char *filename, unsigned long line,
 __CPROVER_requires(MEM_LEVEL_REQ && size <= (size_t) VCAP && vg_n2 <= (size_t) VCAP && (ptr == NULL || __CPROVER_is_fresh(ptr, vg_n2)))
 __CPROVER_assigns()
 __CPROVER_frees(ptr)
-/* realloc(NULL) allocates, realloc(p, 0) frees, otherwise a block of the new size and the old one released */
-__CPROVER_ensures(ptr != NULL || __CPROVER_is_fresh(__CPROVER_return_value, size))
+/* realloc(NULL) allocates, realloc(p, 0) frees, otherwise a block of the new size and the old one released
+ * (the same clauses as verif_REALLOC in units/C15/macros.c; REALLOC(NULL, 0) is the subject of macro.null0.*) */
+__CPROVER_ensures(!(ptr == NULL && size != 0) || __CPROVER_is_fresh(__CPROVER_return_value, size))
 __CPROVER_ensures(!(ptr != NULL && size == 0) || (__CPROVER_return_value == NULL && __CPROVER_was_freed(ptr)))
 __CPROVER_ensures(!(ptr != NULL && size != 0) || (__CPROVER_is_fresh(__CPROVER_return_value, size) && __CPROVER_was_freed(ptr)))
 ;
@@ -308,13 +317,15 @@ void *spifmem_malloc(const char *filename, unsigned long line, size_t size)
 __CPROVER_requires(MEM_LEVEL_REQ && size <= (size_t) VCAP)
 __CPROVER_requires(MEMREC_PRE(MEM_TAB) && malloc_rec.cnt < MEMREC_CAP)
 __CPROVER_requires(MEM_FNAME_PRE(filename) && line <= 0xffffffffUL)
+MEM_R(P_MALLOC, 3, MEM_LIVE_PRE_AT(vg_r) && (vg_r2 == vg_r || MEM_LIVE_PRE_AT(vg_r2)))
 MEM_R(P_MALLOC, 2, MEMREC_LOGICAL(MEM_TAB))
-MEM_R(P_MALLOC, 3, MEMREC_NODUP_AT(MEM_TAB, vg_r, vg_r2) && MEM_LIVE_PRE_AT(vg_r) && (vg_r2 == vg_r || MEM_LIVE_PRE_AT(vg_r2)))
+MEM_R(P_MALLOC, 3, MEMREC_NODUP_AT(MEM_TAB, vg_r, vg_r2))
 __CPROVER_assigns(malloc_rec.cnt, malloc_rec.ptrs, vg_exit)
 __CPROVER_assigns(malloc_rec.ptrs != NULL: __CPROVER_object_whole(malloc_rec.ptrs))
 __CPROVER_frees(malloc_rec.ptrs)
 __CPROVER_ensures(__CPROVER_is_fresh(__CPROVER_return_value, size))
-MEM_E(P_MALLOC, 1, MEMREC_POST(MEM_TAB) && malloc_rec.cnt == __CPROVER_old(malloc_rec.cnt) + 1)
+__CPROVER_ensures(malloc_rec.cnt == __CPROVER_old(malloc_rec.cnt) + 1 && __CPROVER_is_fresh(malloc_rec.ptrs, MEMREC_RSZ * malloc_rec.cnt))
+MEM_E(P_MALLOC, 1, MEMREC_POST(MEM_TAB))
 MEM_E(P_MALLOC, 2, !(vg_r < __CPROVER_old(malloc_rec.cnt)) || MEMREC_REC_EQ(malloc_rec.ptrs[vg_r], vg_o_r))
 MEM_E(P_MALLOC, 2, vg_r != __CPROVER_old(malloc_rec.cnt) ||
             (malloc_rec.ptrs[vg_r].ptr == __CPROVER_return_value && malloc_rec.ptrs[vg_r].size == size &&
@@ -322,17 +333,19 @@ MEM_E(P_MALLOC, 2, vg_r != __CPROVER_old(malloc_rec.cnt) ||
 MEM_E(P_MALLOC, 3, MEMREC_NODUP_AT(MEM_TAB, vg_r, vg_r2))
 ;
 void *spifmem_calloc(const char *filename, unsigned long line, size_t count, size_t size)
-__CPROVER_requires(MEM_LEVEL_REQ && count <= 0xffffUL && size <= 0xffffUL)
+__CPROVER_requires(MEM_LEVEL_REQ && count <= 0xffffUL && size <= 0xffffUL && MEM_CALLOC_SIZE_REQ(size))
 __CPROVER_requires(MEMREC_PRE(MEM_TAB) && malloc_rec.cnt < MEMREC_CAP)
 __CPROVER_requires(MEM_FNAME_PRE(filename) && line <= 0xffffffffUL)
+MEM_R(P_CALLOC, 3, MEM_LIVE_PRE_AT(vg_r) && (vg_r2 == vg_r || MEM_LIVE_PRE_AT(vg_r2)))
 MEM_R(P_CALLOC, 2, MEMREC_LOGICAL(MEM_TAB))
-MEM_R(P_CALLOC, 3, MEMREC_NODUP_AT(MEM_TAB, vg_r, vg_r2) && MEM_LIVE_PRE_AT(vg_r) && (vg_r2 == vg_r || MEM_LIVE_PRE_AT(vg_r2)))
+MEM_R(P_CALLOC, 3, MEMREC_NODUP_AT(MEM_TAB, vg_r, vg_r2))
 __CPROVER_assigns(malloc_rec.cnt, malloc_rec.ptrs, vg_exit)
 __CPROVER_assigns(malloc_rec.ptrs != NULL: __CPROVER_object_whole(malloc_rec.ptrs))
 __CPROVER_frees(malloc_rec.ptrs)
 __CPROVER_ensures(__CPROVER_is_fresh(__CPROVER_return_value, count * size))
 __CPROVER_ensures(!(vg_k2 < count * size) || ((char *) __CPROVER_return_value)[vg_k2] == 0)
-MEM_E(P_CALLOC, 1, MEMREC_POST(MEM_TAB) && malloc_rec.cnt == __CPROVER_old(malloc_rec.cnt) + 1)
+__CPROVER_ensures(malloc_rec.cnt == __CPROVER_old(malloc_rec.cnt) + 1 && __CPROVER_is_fresh(malloc_rec.ptrs, MEMREC_RSZ * malloc_rec.cnt))
+MEM_E(P_CALLOC, 1, MEMREC_POST(MEM_TAB))
 MEM_E(P_CALLOC, 2, !(vg_r < __CPROVER_old(malloc_rec.cnt)) || MEMREC_REC_EQ(malloc_rec.ptrs[vg_r], vg_o_r))
 MEM_E(P_CALLOC, 2, vg_r != __CPROVER_old(malloc_rec.cnt) ||
             (malloc_rec.ptrs[vg_r].ptr == __CPROVER_return_value && malloc_rec.ptrs[vg_r].size == count * size &&
@@ -378,7 +391,7 @@ MEM_E(P_FREE, 3, malloc_rec.cnt == __CPROVER_old(malloc_rec.cnt) || vg_fidx != v
 void *spifmem_realloc(const char *var, const char *filename, unsigned long line, void *ptr, size_t size)
 __CPROVER_requires(MEM_LEVEL_REQ && size <= (size_t) VCAP && vg_n2 <= (size_t) VCAP && (ptr == NULL || __CPROVER_is_fresh(ptr, vg_n2)))
 #if defined(U_RB_NULL)
-__CPROVER_requires(ptr == NULL)
+__CPROVER_requires(ptr == NULL && size != 0)      /* REALLOC(NULL, 0): units macro.null0.* */
 #elif defined(U_RB_ZERO)
 __CPROVER_requires(ptr != NULL && size == 0)
 #elif defined(U_RB_MOVE)
@@ -386,18 +399,19 @@ __CPROVER_requires(ptr != NULL && size != 0)
 #endif
 __CPROVER_requires(MEMREC_PRE(MEM_TAB) && malloc_rec.cnt < MEMREC_CAP)
 __CPROVER_requires(MEM_FNAME_PRE(filename) && line <= 0xffffffffUL)
+/* (is_fresh assigns the recorded pointers: before the logical variables are tied to the entry state) */
+MEM_R(P_REALLOC, 3, MEM_LIVE_OR_ARG_AT(vg_r, ptr) && (vg_r2 == vg_r || MEM_LIVE_OR_ARG_AT(vg_r2, ptr)))
 MEM_R(P_REALLOC, 2, MEMREC_LOGICAL(MEM_TAB))
 MEM_R(P_REALLOC, 3, MEMREC_NODUP_AT(MEM_TAB, vg_r, vg_r2) && MEMREC_NODUP_AT(MEM_TAB, vg_r + 1, vg_r2) &&
               MEMREC_NODUP_AT(MEM_TAB, vg_r, vg_r2 + 1) && MEMREC_NODUP_AT(MEM_TAB, vg_r + 1, vg_r2 + 1))
-MEM_R(P_REALLOC, 3, MEM_LIVE_OR_ARG_AT(vg_r, ptr) && (vg_r2 == vg_r || MEM_LIVE_OR_ARG_AT(vg_r2, ptr)))
 __CPROVER_assigns(malloc_rec.cnt, malloc_rec.ptrs, vg_exit, vg_fidx)
 __CPROVER_assigns(malloc_rec.ptrs != NULL: __CPROVER_object_whole(malloc_rec.ptrs))
 __CPROVER_frees(malloc_rec.ptrs, ptr)
-__CPROVER_ensures(ptr != NULL || __CPROVER_is_fresh(__CPROVER_return_value, size))
+__CPROVER_ensures(!(ptr == NULL && size != 0) || __CPROVER_is_fresh(__CPROVER_return_value, size))
 __CPROVER_ensures(!(ptr != NULL && size == 0) || (__CPROVER_return_value == NULL && __CPROVER_was_freed(ptr)))
 __CPROVER_ensures(!(ptr != NULL && size != 0) || (__CPROVER_is_fresh(__CPROVER_return_value, size) && __CPROVER_was_freed(ptr)))
 MEM_E(P_REALLOC, 1, MEMREC_POST(MEM_TAB))
-MEM_E(P_REALLOC, 1, ptr != NULL || malloc_rec.cnt == __CPROVER_old(malloc_rec.cnt) + 1)
+MEM_E(P_REALLOC, 1, !(ptr == NULL && size != 0) || malloc_rec.cnt == __CPROVER_old(malloc_rec.cnt) + 1)
 MEM_E(P_REALLOC, 1, !(ptr != NULL && size == 0) || malloc_rec.cnt == __CPROVER_old(malloc_rec.cnt) || malloc_rec.cnt + 1 == __CPROVER_old(malloc_rec.cnt))
 MEM_E(P_REALLOC, 1, !(ptr != NULL && size != 0) || (malloc_rec.cnt == __CPROVER_old(malloc_rec.cnt) && malloc_rec.ptrs == __CPROVER_old(malloc_rec.ptrs)))
 #if defined(U_RB_NULL)
@@ -435,14 +449,16 @@ char *spifmem_strdup(const char *var, const char *filename, unsigned long line, 
 __CPROVER_requires(MEM_LEVEL_REQ && vg_n2 < (size_t) VCAP && __CPROVER_is_fresh(str, vg_n2 + 1) && str[vg_n2] == 0 && (!(vg_j < vg_n2) || str[vg_j] != 0))
 __CPROVER_requires(MEMREC_PRE(MEM_TAB) && malloc_rec.cnt < MEMREC_CAP)
 __CPROVER_requires(MEM_FNAME_PRE(filename) && line <= 0xffffffffUL)
+MEM_R(P_MALLOC, 3, MEM_LIVE_PRE_AT(vg_r) && (vg_r2 == vg_r || MEM_LIVE_PRE_AT(vg_r2)))
 MEM_R(P_MALLOC, 2, MEMREC_LOGICAL(MEM_TAB))
-MEM_R(P_MALLOC, 3, MEMREC_NODUP_AT(MEM_TAB, vg_r, vg_r2) && MEM_LIVE_PRE_AT(vg_r) && (vg_r2 == vg_r || MEM_LIVE_PRE_AT(vg_r2)))
+MEM_R(P_MALLOC, 3, MEMREC_NODUP_AT(MEM_TAB, vg_r, vg_r2))
 __CPROVER_assigns(malloc_rec.cnt, malloc_rec.ptrs, vg_exit)
 __CPROVER_assigns(malloc_rec.ptrs != NULL: __CPROVER_object_whole(malloc_rec.ptrs))
 __CPROVER_frees(malloc_rec.ptrs)
 __CPROVER_ensures(__CPROVER_is_fresh(__CPROVER_return_value, vg_n2 + 1))
 __CPROVER_ensures(__CPROVER_return_value[vg_n2] == 0 && (!(vg_k < vg_n2) || __CPROVER_return_value[vg_k] == str[vg_k]))
-MEM_E(P_MALLOC, 1, MEMREC_POST(MEM_TAB) && malloc_rec.cnt == __CPROVER_old(malloc_rec.cnt) + 1)
+__CPROVER_ensures(malloc_rec.cnt == __CPROVER_old(malloc_rec.cnt) + 1 && __CPROVER_is_fresh(malloc_rec.ptrs, MEMREC_RSZ * malloc_rec.cnt))
+MEM_E(P_MALLOC, 1, MEMREC_POST(MEM_TAB))
 MEM_E(P_MALLOC, 2, !(vg_r < __CPROVER_old(malloc_rec.cnt)) || MEMREC_REC_EQ(malloc_rec.ptrs[vg_r], vg_o_r))
 MEM_E(P_MALLOC, 2, vg_r != __CPROVER_old(malloc_rec.cnt) ||
             (malloc_rec.ptrs[vg_r].ptr == __CPROVER_return_value && malloc_rec.ptrs[vg_r].size == vg_n2 + 1 &&
